@@ -136,6 +136,20 @@ def run(chk):
         line = '%s%s %s new %s%s' % (pre, ' '.join(steps), probe_prog, pre, probe_prog)
         cases.append((pkind, kinds))
         lines.append(line)
+    # self-history: decode a frame up to block k (abandoned or completed), then probe with the frame's own suffix from
+    # block k on: the reused decoder holds exactly the tables / offsets / window the suffix would need if anything leaked
+    for f in pool:
+        w = framegen.walk_blocks(f['frame'])
+        if not w or len(w[1]) < 2:
+            continue
+        sfx = suffix_frames(f)
+        for k in sorted(set([1, len(w[1]) - 1, rng.range(1, len(w[1]) - 1)])):
+            probe = sfx[k - 1]
+            probe_prog = 'src=%s I B?a C Q K' % hexs(probe)
+            for hist_prog, hk in (('src=%s I B?b%d' % (hexs(f['frame']), k), 'self-abandoned-after-%d' % k),
+                                  ('src=%s I Ba C' % hexs(f['frame']), 'self-complete')):
+                cases.append(('self-suffix', [hk]))
+                lines.append('%s %s new %s' % (hist_prog, probe_prog, probe_prog))
     impl, mod, dis = run_programs(chk, 'reuse', lines, describe=lambda i: '%s after %s' % cases[i])
     nbad = 0
     hist = {}
